@@ -224,7 +224,7 @@ class FaceVariable:
         if (type(self.domain) is Grid1D)\
          or (type(self.domain) is Grid2D)\
          or (type(self.domain) is Grid3D):
-            self._xvalue = value
+            raise AttributeError('rvalue does not exist for Cartesian grids')
         elif (type(self.domain) is CylindricalGrid1D)\
          or (type(self.domain) is CylindricalGrid2D)\
          or (type(self.domain) is CylindricalGrid3D)\
